@@ -31,11 +31,29 @@ def _member_root(e):
             e = e["args"][0]
         elif k == "Cast":
             e = e["e"]
-        elif k == "Call" and e.get("short") in ("at", "front", "back") and e.get("recv") is not None:
+        elif k == "Call" and e.get("short") in ("at", "front", "back", "get") and e.get("recv") is not None:
             e = e["recv"]
         else:
             return None
     return None
+
+
+def _through_subscript(e):
+    while is_node(e):
+        k = e["k"]
+        if k == "Subscript" or (k == "Call" and e.get("short") == "at"):
+            return True
+        if k == "Member":
+            e = e.get("base")
+        elif k == "Call" and e.get("recv") is not None:
+            e = e["recv"]
+        elif k in ("Cast",):
+            e = e["e"]
+        elif k == "Unary":
+            e = e["e"]
+        else:
+            return False
+    return False
 
 
 def discover_P(F):
@@ -54,6 +72,10 @@ def discover_P(F):
             if n["k"] in ("Assign",) or (n["k"] == "OpCall" and n.get("op") == "="):
                 tgt = n["l"] if n["k"] == "Assign" else (n.get("args") or [None])[0]
                 m = _member_root(tgt)
+                if m == "strings" and is_node(tgt) and _through_subscript(tgt):
+                    # overwriting an existing string in place changes what its index denotes
+                    why = "strings[i] = …"
+                    break
                 if m in ("blocks", "blockTypeIndices", "blockSizes", "strings") and is_node(tgt) and tgt["k"] != "Subscript":
                     # whole-table assignment (not element store; element stores keep positions)
                     if not (tgt["k"] == "Member" and m == "blocks" and (tgt.get("ct") or tgt.get("t") or "").rstrip().endswith("*")):
